@@ -83,6 +83,10 @@ def run(res, b, tier, seed):
         gc = c09.gen_case(rng, i)
         cases.append(pipeline.Case("m%d" % i, gc.files, meta=dict(multipath=bool(gc.meta.get("multipath")),
                                                                src="\n".join("// file %s\n%s" % (k, v.decode("utf-8", "replace")) for k, v in gc.files.items()))))
+    # every small graph with a file reached twice x importing files with / without top-level code (deterministic; see c09.directed_graphs)
+    for gc in c09.directed_graphs(random.Random(16)):
+        cases.append(pipeline.Case("dg" + gc.id, gc.files, meta=dict(multipath=bool(gc.meta.get("multipath")),
+                                                                    src="\n".join("// file %s\n%s" % (k, v.decode("utf-8", "replace")) for k, v in gc.files.items()))))
     pipeline.run_pipe(b, cases, "sw")
     pipeline.model_full(b, cases)
     pipeline.model_batch(b, cases)
@@ -104,7 +108,9 @@ def run(res, b, tier, seed):
         if c.out.get("BATCH", ("", ""))[0] == "OK":
             nbatch += 1
             probs = batchcheck.analyse(bytes.fromhex(c.out["BATCH"][1]).decode("utf-8", "replace"))
-            for p in probs[:3]:
+            # ALL problems of a script are classified one by one: the known ones (labels of case-insensitively equal names, labels of
+            # files reached twice) must not hide a new one further down the list (regression after round 6: C16-3)
+            for p in probs:
                 fails.append((c, "batch", p))
     res.coverage.update(dict(
         evaluations=len(cases),
